@@ -38,6 +38,7 @@ struct FileCtx<'a> {
     ops: bool,
     deref_lets: HashSet<String>,
     tape_fns: HashSet<String>,
+    decl_types: std::collections::HashMap<String, String>,
     line_starts: Vec<usize>,
 }
 
@@ -658,6 +659,15 @@ impl<'a, 'b, 'ast> Visit<'ast> for Rewriter<'a, 'b> {
         }
         if let Stmt::Item(_) = s {
             return; // nested items are kept verbatim
+        }
+        // `let mut x;` (deferred initialisation, type inferred later): add the declared type (D)
+        if let Stmt::Local(l) = s {
+            if let (Pat::Ident(pi), None) = (&l.pat, &l.init) {
+                if let Some(t) = self.fx.decl_types.get(&pi.ident.to_string()) {
+                    let (_, hi) = self.fx.rng(pi.span());
+                    self.edit(hi, hi, format!(": {}", t), "R4");
+                }
+            }
         }
         if let Stmt::Local(l) = s {
             if let (Pat::Struct(ps), Some(init)) = (&l.pat, &l.init) {
@@ -1364,6 +1374,7 @@ fn main() {
     let cfg: Value = serde_json::from_str(&std::fs::read_to_string(&args[1]).expect("read config")).expect("parse config");
     let deref_lets: HashSet<String> = cfg["deref_lets"].as_array().map(|a| a.iter().filter_map(|v| v.as_str().map(|s| s.to_string())).collect()).unwrap_or_default();
     let tape_fns: HashSet<String> = cfg["tape_fns"].as_array().map(|a| a.iter().filter_map(|v| v.as_str().map(|s| s.to_string())).collect()).unwrap_or_default();
+    let decl_types: std::collections::HashMap<String, String> = cfg["decl_types"].as_object().map(|o| o.iter().filter_map(|(k, v)| v.as_str().map(|s| (k.clone(), s.to_string()))).collect()).unwrap_or_default();
     let mut all_items: Vec<Value> = vec![];
     let mut errors: Vec<String> = vec![];
     for f in cfg["files"].as_array().expect("files") {
@@ -1391,7 +1402,7 @@ fn main() {
                 line_starts.push(i + 1);
             }
         }
-        let fx = FileCtx { src: &src, path: path.clone(), features, ops, deref_lets: deref_lets.clone(), tape_fns: tape_fns.clone(), line_starts };
+        let fx = FileCtx { src: &src, path: path.clone(), features, ops, deref_lets: deref_lets.clone(), tape_fns: tape_fns.clone(), decl_types: decl_types.clone(), line_starts };
         let mut w = Walker { fx: &fx, items: vec![] };
         w.walk(&ast.items, &modpath);
         all_items.extend(w.items);
